@@ -17,6 +17,9 @@ func init() {
 			{"C05.R1", "q", "repoint atomic w.r.t. writers", c05r1},
 			{"C05.R2", "q", "cancel at file boundaries only; cleanup deferred", c05r2},
 			{"C05.R4", "q", "no blocking call between copy and repoint", c05r4},
+			{"C05.R5", "q", "hint buffers of the collected range held for the whole pass", c05r5},
+			{"C17.R1", "q", "shared: a registered pass always counts as running", c17r1},
+			{"C17.R6", "q", "shared: CancelGC only flags", c17r6},
 			{"C01.R3", "q", "shared: reader key gate", c01r3},
 			{"C02.R3", "q", "shared: relocated records get hints", c02r3},
 			{"C03.R2", "q", "shared: repoint/hint position = copy target", c03r2},
@@ -294,4 +297,62 @@ func acquires(c *Ctx) map[*prog.Func]map[string]bool {
 	}
 	c.acq = acq
 	return acq
+}
+
+// c05r5: GC holds new hints in memory (maxDumpableChunkID) from BeforeBucket to
+// AfterBucket so that a key set during the pass that collides with a key inside
+// the collected range is still found in a hint buffer by getCollisionGC.
+func c05r5(c *Ctx) {
+	const R = "C05.R5"
+	ws := fieldWriters(c, "store.hintMgr.maxDumpableChunkID")["store.hintMgr.maxDumpableChunkID"]
+	allowed := map[string]bool{"store.newHintMgr": true, "store.GCMgr.BeforeBucket": true, "store.GCMgr.AfterBucket": true}
+	if len(ws) == 0 {
+		c.undec(R, "store.hintMgr.maxDumpableChunkID", "no writer of the dump limit found")
+		return
+	}
+	for _, w := range ws {
+		c.check(allowed[w], R, w+": writes hintMgr.maxDumpableChunkID", "-", "constructor / BeforeBucket / AfterBucket", w+" changes the hint dump limit that GC sets for the duration of a pass: hint buffers holding keys set during GC can be dumped (and dropped from memory) before GC has looked at a colliding key, which is then released as garbage")
+	}
+	if f := c.fn(R, "store.GCMgr.BeforeBucket"); f != nil {
+		info := f.Info()
+		okSet := false
+		ast.Inspect(f.Decl.Body, func(x ast.Node) bool {
+			if as, ok := x.(*ast.AssignStmt); ok && len(as.Lhs) == 1 && prog.IsField(info, "store.hintMgr.maxDumpableChunkID")(as.Lhs[0]) && prog.Mentions(info, as.Rhs[0], f.Param(2)) && len(f.GuardsAt(as)) == 0 {
+				okSet = true
+			}
+			return true
+		})
+		c.check(okSet, R, f.Key+": dump limit lowered below the collected range", f.Pos(), "maxDumpableChunkID = endChunkID - 1, unconditionally", "BeforeBucket no longer lowers the hint dump limit for the pass")
+	}
+	if f := c.fn(R, "store.GCMgr.gc"); f != nil {
+		after := false
+		ast.Inspect(f.Decl.Body, func(x ast.Node) bool {
+			if d, ok := x.(*ast.DeferStmt); ok && len(f.CallsIn(d, "store.GCMgr.AfterBucket")) > 0 {
+				after = true
+			}
+			return true
+		})
+		c.check(after, R, f.Key+": limit restored by a deferred AfterBucket", f.Pos(), "defer mgr.AfterBucket(bkt)", "the dump limit is not restored on every exit of gc")
+	}
+	if f := c.fn(R, "store.hintMgr.dumpAndMerge"); f != nil {
+		// the loop bound may be widened for GC only through a local
+		info := f.Info()
+		okLocal := true
+		ast.Inspect(f.Decl.Body, func(x ast.Node) bool {
+			if fs, ok := x.(*ast.ForStmt); ok && fs.Cond != nil && len(f.CallsIn(fs, "store.hintMgr.trydump")) > 0 {
+				if be, ok := prog.Unparen(fs.Cond).(*ast.BinaryExpr); ok {
+					src := f.SourcesAt(be.Y, fs.Cond)
+					hasField := false
+					for _, s := range src {
+						if prog.MentionsField(info, s.Expr, "store.hintMgr.maxDumpableChunkID") || s.Field == "maxDumpableChunkID" {
+							hasField = true
+						}
+					}
+					okLocal = hasField
+				}
+			}
+			return true
+		})
+		c.check(okLocal, R, f.Key+": dumps only up to the limit", f.Pos(), "loop bound derives from maxDumpableChunkID", "dumpAndMerge no longer bounds its dump loop by maxDumpableChunkID")
+	}
 }
